@@ -321,7 +321,9 @@ reg("C15", harness="c15_reentrant", level="model_checking", deadline=(480, 2400)
                "the serial value, the final slots must equal the serial selection, nothing but dispatch slots may be written. (a) right after implementation "
                "selection - before the first data-plane call of the process, so lazily built state is caught too - the "
                "library's writable segment is made read-only and the whole battery + extra workload runs at 7 CPU levels. (c) contexts, level "
-               "buffers, outputs and decoder states pre-filled with 5 patterns give identical results. (d) every operation history of depth <= 2 "
+               "buffers, outputs and decoder states pre-filled with 5 patterns give identical results; inflate (both APIs, 3 kernels) on the stale-decode-"
+               "table fault streams gives the same verdict and output on states pre-filled with 5 patterns and on states left behind by decoding a "
+               "valid sibling stream (then reset / re-init). (d) every operation history of depth <= 2 "
                "(3) over 21 operations followed by reset or init behaves like a fresh context.",
     level_note="interleavings are sequentially consistent at instruction granularity (TSO covered by the Promela slot model, models/slot_tso.pml); "
                "preemption bound <= 2/3 for multi-slot cold starts; the scheduler self-test (racy toy found, atomic toy silent) runs first.",
